@@ -59,6 +59,10 @@ pub fn corpus() -> Vec<(&'static str, &'static str)> {
         (r"(?<=(a)|(ba))\2", "baba"),
         (r"(?<=(a)|(ba))(?:\2|\1)", "baba"),
         (r"(?=(a(?=)|ab))\1b", "aab"),
+        (r"(?<=\K.\K)x", "😀x"),
+        (r"(?<=.)x", "x😀x"),
+        (r"(?<=..)x", "a😀x"),
+        (r"(?<!\K..)x", "😀x"),
     ]
 }
 
@@ -108,6 +112,18 @@ pub fn patterns(space: &str, tier: &str, seed: u64) -> Vec<String> {
         ] {
             push(p.to_string(), &mut out);
         }
+        // sizes at the edge of usize inside look-behind bodies: products that do not fit, and usize::MAX itself as a size
+        maxlen.set(200);
+        for n in ["9223372036854775808", "9223372036854775809", "18446744073709551615", "18446744073709551614", "4294967296"] {
+            for body in [
+                format!("c(?:ab|(?>xy){{{}}})", n), format!("c(?:(?>x){{{}}}|ab)", n), format!("(?:(?>ab){{{}}}|b)", n), format!("(?:b|(?>a){{{}}})", n),
+                format!("(?(a)(?>b){{{}}}|cc)", n), format!("a(?>(?>bc){{{}}})", n),
+            ] {
+                push(format!("(?<={})d", body), &mut out);
+                push(format!("(?<!{})d", body), &mut out);
+            }
+        }
+        maxlen.set(80);
     }
     // commit / restore family: an atomic group (or a condition, or a negative look-ahead) that leaves several
     // alternatives behind with capture slots written between them, then a continuation that can fail, then an
@@ -250,7 +266,7 @@ pub fn texts(space: &str, tier: &str) -> Vec<String> {
         push(t.to_string(), &mut out);
     }
     if matches!(space, "c05" | "c13" | "c16") {
-        for t in ["日", "a日b", "€", "a€", "😀", "a😀b", "é日😀", "日日", "😀😀", "ßa", "aßb", "ÿ", "aÿ", "ÿa", "¿a", "अ", "aअ", "अa", "ก ก", "ÿÿ"] {
+        for t in ["日", "a日b", "€", "a€", "😀", "a😀b", "é日😀", "日日", "😀😀", "ßa", "aßb", "ÿ", "aÿ", "ÿa", "¿a", "अ", "aअ", "अa", "ก ก", "ÿÿ", "😀x", "x😀x", "cabd", "cxyd"] {
             push(t.to_string(), &mut out);
         }
         for t in all_texts(&['a', 'é', '日', '😀'], 2) {
@@ -580,6 +596,31 @@ fn entry_points_c05(s: &mut Session, re: &fancy_regex::Regex, p: &str, t: &str) 
         }
         for piece in re.splitn(t, 2) {
             let _ = piece;
+        }
+        // size hints are part of iterating: asked before and after the first item, for every limit incl. the extremes
+        for n in [0usize, 1, 2, usize::MAX - 1, usize::MAX] {
+            let mut it = re.splitn(t, n);
+            let (lo, hi) = it.size_hint();
+            let first = it.next();
+            let _ = it.size_hint();
+            let rest = it.count() + first.is_some() as usize;
+            if lo > rest || hi.map(|h| h < rest).unwrap_or(false) {
+                bad.borrow_mut().push(format!("splitn({}) size_hint ({},{:?}) but {} items", n, lo, hi, rest));
+            }
+        }
+        {
+            let mut it = re.split(t);
+            let _ = it.size_hint();
+            let _ = it.next();
+            let _ = it.size_hint();
+            let mut f = re.find_iter(t);
+            let _ = f.size_hint();
+            let _ = f.next();
+            let _ = f.size_hint();
+            let mut c = re.captures_iter(t);
+            let _ = c.size_hint();
+            let _ = c.next();
+            let _ = c.size_hint();
         }
         let _ = re.try_replacen(t, 0, "x");
         let _ = re.try_replacen(t, 1, "[$0$1]");
